@@ -28,6 +28,8 @@ func main() {
 	verbose := flag.Bool("v", false, "print every obligation")
 	dumpGen := flag.Bool("dumpgen", false, "print generated contract code")
 	jsonOut := flag.String("json", "", "write results as JSON")
+	vacuity := flag.Bool("vacuity", false, "report the first obligation of each unit whose hypotheses are unsatisfiable")
+	focus := flag.String("focus", "", "regexp: dump goal and script of matching obligations to /tmp/gocv-focus")
 	flag.IntVar(&hsortBits, "hsort", 48, "bits of size components in heaps (debug)")
 	flag.Parse()
 	t0 := time.Now()
@@ -52,6 +54,64 @@ func main() {
 		os.MkdirAll(tmp, 0o755)
 	}
 	so := solveOpts{timeoutS: *timeout, agree: *agree, tmp: tmp, jobs: *jobs, keep: *keep != ""}
+	if *focus != "" {
+		fre := regexp.MustCompile(*focus)
+		os.MkdirAll("/tmp/gocv-focus", 0o755)
+		n := 0
+		for _, u := range results {
+			for _, o := range u.Obligs {
+				if fre.MatchString(o.Name) {
+					n++
+					_, rg := u.exec.hypothesesAndGoal(o)
+					fmt.Printf("=== %s\nPC: %s\nGOAL: %s\nhyps=%d extra=%d facts=%d\n", o.Name, o.PC.Pretty(1500), rg.Pretty(5000), o.NHyps, len(o.Extra), len(u.exec.facts))
+					os.WriteFile(fmt.Sprintf("/tmp/gocv-focus/f%d.smt2", n), []byte(u.exec.script(o, nil)), 0o644)
+					for ci, cj := range conjuncts(o.Goal, nil) {
+						if ci < 3 {
+							fmt.Printf("  GOALCONJ%d: %s\n", ci, cj.Pretty(6000))
+						}
+					}
+					{
+						tb := u.exec.tb
+						lits, nlits := map[int]bool{}, map[int]bool{}
+						for _, c := range conjuncts(o.PC, nil) {
+							lits[c.id] = true
+							if c.Op == "not" {
+								nlits[c.Args[0].id] = true
+							} else {
+								nlits[tb.Not(c).id] = true
+							}
+						}
+						for hi, h := range u.exec.assumes[:o.NHyps] {
+							if r := tb.RewriteUnder(h, lits, nlits, map[int]*Term{}); r.IsFalse() {
+								fmt.Printf("  FALSE-HYP %d: %s\n", hi, h.Pretty(1500))
+							}
+						}
+					}
+					hy := u.exec.hypotheses(o)
+					for i, h := range hy {
+						fmt.Printf("  H%d: %s\n", i, h.Pretty(600))
+					}
+					rel := u.exec.relevant(o, hy, 1, 6)
+					fmt.Printf("relevant: %d of %d\n", len(rel), len(hy))
+					os.WriteFile(fmt.Sprintf("/tmp/gocv-focus/f%d_rel.smt2", n), []byte(u.exec.scriptWith(o, nil, rel)), 0o644)
+				}
+			}
+		}
+	}
+	if *vacuity {
+		for _, u := range results {
+			for _, o := range u.Obligs {
+				o2 := *o
+				o2.ExpectSat = true
+				f := tmp + "/vac.smt2"
+				os.WriteFile(f, []byte(u.exec.script(&o2, nil)), 0o644)
+				a := runSolver(contextBG(), solvers[0], f, 10)
+				if a.status == "unsat" {
+					fmt.Printf("VACUOUS: %s (%s)\n", o.Name, o.Pos)
+				}
+			}
+		}
+	}
 	t1 := time.Now()
 	SolveAll(results, so)
 	fmt.Fprintf(os.Stderr, "solved in %.1fs\n", time.Since(t1).Seconds())
@@ -105,7 +165,7 @@ func envOr(k, d string) string {
 func (w *World) RunUnits(sel func(name string) bool) []*UnitResult {
 	var out []*UnitResult
 	for _, c := range w.allContracts {
-		if c.RecvIface || !sel(c.Key) {
+		if c.RecvIface || c.Opaque || !sel(c.Key) {
 			continue
 		}
 		out = append(out, w.VerifyUnit(c.Fn, c))
